@@ -14,8 +14,8 @@ from typing import Any
 VERIF = os.path.dirname(os.path.dirname(os.path.abspath(__file__)))
 REPO = os.environ.get("VERIF_REPO", "/repo")
 REPO_SRC = os.path.join(REPO, "src")
-WORK = os.path.join(VERIF, ".work")
-EVIDENCE_DIR = os.path.join(VERIF, "evidence")
+WORK = os.path.join(VERIF, ".work", os.environ.get("VERIF_WORKTAG", "main")) if os.environ.get("VERIF_REPO") is None else os.path.join(VERIF, ".work", "alt_%d" % os.getpid())
+EVIDENCE_DIR = os.environ.get("VERIF_EVIDENCE_DIR") or os.path.join(VERIF, "evidence")
 REPLAY_DIR = os.path.join(VERIF, "replays")
 KNOWN_FINDINGS = os.path.join(VERIF, "known_findings.json")
 NCPU = min(16, os.cpu_count() or 4)
